@@ -130,14 +130,11 @@ type helperArg struct {
 var curLimit = 1024
 
 func setupHelpers(a helperArg) {
-	curLimit = 1024
+	curLimit = libdefaults.SemMaxInputLength // default configuration: whatever the library starts with
 	if a.Limit != nil {
 		curLimit = *a.Limit
 	}
 	sem.MaxInputLength = curLimit
-	if a.Limit == nil { // default configuration: whatever the library starts with (the oracle assumes the documented 1024)
-		sem.MaxInputLength = libdefaults.SemMaxInputLength
-	}
 	switch a.Custom {
 	case 1:
 		sem.ComparePreRelease = func(x, y string) int { return -sem.DefaultComparePreRelease(x, y) }
